@@ -348,7 +348,10 @@ class FlowFields(ImageBatch):
             padding=padding,
             align_corners=align_corners,
         )
-        return image._make_instance(data, self._grid)
+        grid = self._grid
+        if len(grid) == 1 and len(data) > 1:
+            grid = tuple(grid) * len(data)
+        return image._make_instance(data, grid)
 
     def __repr__(self) -> str:
         return (
